@@ -347,6 +347,17 @@ Proof.
 Qed.
 Print Assumptions C19_second_pass_exact_sound_complete.
 
+(* round 4: the x.ndim == 2 branch of parabolic_max works row by row — row i of the result is the
+   1-D result for row i, so theorems 14, 15, 17 apply to every row *)
+Theorem C19_parabolic_max_rows : forall (x : list (list Q)) (i : nat), (i < length x)%nat ->
+  nth i (parabolic_max_rows x) (0%Q, 0%Q) = parabolic_max (nth i x []).
+Proof.
+  intros x i Hi. unfold parabolic_max_rows.
+  rewrite (nth_indep _ (0%Q, 0%Q) (parabolic_max [])) by (rewrite map_length; exact Hi).
+  apply map_nth.
+Qed.
+Print Assumptions C19_parabolic_max_rows.
+
 (* ------------------------------------------------------------------------- *)
 (* the hypotheses are satisfiable: a concrete train (ticks of 1 ms)           *)
 (* ------------------------------------------------------------------------- *)
@@ -440,4 +451,10 @@ Proof. vm_compute. repeat split. Qed.
 
 Example ex_tick_refinement :   (* the same train in ticks of 1/3 ms *)
   first_pass (100 * 3) (3 * -5010) (map (Z.mul 3) ex_tsa) (map (Z.mul 3) ex_tsb) = [0; 1; 3; -1; 4; -1].
+Proof. vm_compute. reflexivity. Qed.
+
+Example ex_parabolic_max_rows :   (* two rows of the repository's own test vector: interior peak, peak at the last sample *)
+  map (fun r => (Qeq_bool (fst r) (31 # 6), Qeq_bool (fst r) 7))
+      (parabolic_max_rows [[0; 0; 0; 0; 1; 3; 2; 0]; [0; 1; 3; 2; 0; 0; 0; 5]]%Q)
+  = [(true, false); (false, true)].
 Proof. vm_compute. reflexivity. Qed.
